@@ -275,10 +275,9 @@ theorem rpre_spec (last : Nat) (s : RState) (done rest : List Instr) (c ins : In
 
 /-! ### the complete machine -/
 
-/-- the scope: everything the injection API accepts except instruction-level alternates — block-level lists and block alternates only on
+/-- the scope: everything the injection API accepts — block-level lists and block alternates only on
     `block` / `loop` / `if` / `else`, semantic-after also on branches -/
 structure PlainF (i : Instr) : Prop where
-  alt : i.alt = none
   altOnly : i.blockAlt.isSome = true → i.kind.isBlockStyle = true
   only : i.kind.isBlockStyle = false → i.blockEntry = [] ∧ i.blockExit = []
   semOnly : i.kind.isBlockStyle = false → i.kind.isBranching = false → i.semAfter = []
@@ -290,7 +289,7 @@ theorem branching_not_blockStyle {k : Kind} (h : k.isBranching = true) : k.isBlo
   cases k <;> simp_all [Kind.isBranching, Kind.isBlockStyle]
 
 theorem PlainF.plainA {i : Instr} (h : PlainF i) (hf : flaggedBranch i = false) : PlainA i := by
-  refine ⟨h.alt, h.altOnly, fun hb => ?_⟩
+  refine ⟨h.altOnly, fun hb => ?_⟩
   obtain ⟨h1, h2⟩ := h.only hb
   refine ⟨?_, h1, h2⟩
   cases hbr : i.kind.isBranching with
@@ -309,7 +308,7 @@ def specStepF (fr : List Fr) (del : Option Del) (nl : Nat) (i : Instr) :
     | none =>
       if fr.isEmpty then none
       else
-        some (parkAllF fr (fr.length - 1) (i.semAfter, nl) (branchTargets i.kind), none, nl + 1, [tConst 1, tLocalSet nl], none,
+        some (parkAllF fr (fr.length - 1) (i.semAfter, nl) (branchTargets i.kind), none, nl + 1, [tConst 1, tLocalSet nl], i.alt,
           [tConst 0, tLocalSet nl] ++ (match i.kind with | .brIf _ => i.semAfter | _ => []))
   else (specStepA fr del i).map (fun r => (r.1, r.2.1, nl, r.2.2.1, r.2.2.2.1, r.2.2.2.2))
 
@@ -337,7 +336,7 @@ theorem TiedA.congr {s s' : RState} {fr : List Fr} {del : Option Del} (h : TiedA
 
 /-- **one step of the core is one step of the complete machine** -/
 theorem rcoreF_tied (s : RState) (fr : List Fr) (del : Option Del) (done rest : List Instr) (c ins : Instr) (hp : PlainF ins)
-    (hca : c.alt = none) (ht : TiedA s fr del) (hb : s.body = done ++ c :: rest) (fr' : List Fr) (del' : Option Del) (nl' : Nat)
+    (hca : c.alt = ins.alt) (ht : TiedA s fr del) (hb : s.body = done ++ c :: rest) (fr' : List Fr) (del' : Option Del) (nl' : Nat)
     (B : List Tok) (alt : Option (List Tok)) (A : List Tok) (hs : specStepF fr del s.nlocals ins = some (fr', del', nl', B, alt, A)) :
     let s' := rcore s done.length ins
     TiedA s' fr' del' ∧ s'.nlocals = nl' ∧ s'.added + s.nlocals = s.added + nl' ∧ s'.entry = s.entry ∧ s'.exit = s.exit
@@ -421,7 +420,7 @@ theorem rloopF_tied (last : Nat) (E X : List Tok) : ∀ (xs : List Instr) (s : R
         have hex1' : (rpre last s done.length x).exit = ex := by rw [hpre]
         -- the core
         obtain ⟨t, n1, n2, n3, n4, c', hb', cb, ca, cal, ctok⟩ :=
-          rcoreF_tied (rpre last s done.length x) fr del done xs c1 x hpx (hc1.2.2.1.trans hpx.alt) ht1 hb1 fr' del' nl' B alt A
+          rcoreF_tied (rpre last s done.length x) fr del done xs c1 x hpx hc1.2.2.1 ht1 hb1 fr' del' nl' B alt A
             (by rw [hnl1]; exact h1)
         rw [← rstep_eq] at t n1 n2 n3 n4 hb'
         have hb2 : (rstep last s done.length x).body = (done ++ [c']) ++ xs := by rw [hb']; simp
@@ -460,7 +459,7 @@ theorem plainF_modifyAt_mode (xs : List Instr) (j : Nat) (m : Option Mode) (hp :
     · have hx : x ∈ xs := List.mem_of_getElem? h
       have px := hp x hx
       subst h1
-      exact ⟨px.alt, px.altOnly, px.only, px.semOnly⟩
+      exact ⟨px.altOnly, px.only, px.semOnly⟩
 
 theorem specStepF_stripMode (fr : List Fr) (del : Option Del) (nl : Nat) (i : Instr) :
     specStepF fr del nl (stripMode i) = specStepF fr del nl i := rfl
@@ -672,7 +671,7 @@ theorem KeptAll_mono : ∀ (xs : List Instr) (d : Nat) (o o' : List Tok), KeptAl
 
 /-- without a block alternate and outside a removed region, the extended machine steps like the plain one -/
 theorem specStepA_plain (fr : List Fr) (x : Instr) (hba : x.blockAlt = none) :
-    specStepA fr none x = (specStep fr x).map (fun r => (r.1, none, r.2.1, none, r.2.2)) := by
+    specStepA fr none x = (specStep fr x).map (fun r => (r.1, none, r.2.1, x.alt, r.2.2)) := by
   cases hk : x.kind with
   | block | loop | if_ => simp [specStepA, specStep, hk, hba]
   | else_ =>
